@@ -65,8 +65,9 @@ inductive Out
   | pendIns (s : Sid) | pendRm (s : Sid) | pendRetain
   -- `debug_assert!(false)`
   | bug
-  -- ghost markers (no effect in the code): an inbound substream was accepted by the user / automatically
-  | accepted (pipe : Pipe) | autoAccepted (pipe : Pipe)
+  -- ghost markers (no effect in the code): an inbound substream was accepted by the user / automatically /
+  -- rejected by the user
+  | accepted (pipe : Pipe) | autoAccepted (pipe : Pipe) | rejected (pipe : Pipe)
   deriving DecidableEq, Repr
 
 def OutSt.pendingOpen : OutSt → Option Sid
@@ -83,18 +84,21 @@ abbrev Slot := Option PState
 abbrev Res := Slot × List Out
 
 /-- `on_open_substream`. `shouldDial`: config; `dialOk`: result of `service.dial`;
+`pendHas`: `pending_outbound.contains_key(pending_open)` (the pending substream is still being opened);
 `openRes`: result of `service.open_substream` (`some` fresh id / `none` = error). -/
-def onOpenSubstream (slot : Slot) (shouldDial dialOk : Bool) (openRes : Option Sid) : Res :=
+def onOpenSubstream (slot : Slot) (shouldDial dialOk pendHas : Bool) (openRes : Option Sid) : Res :=
   match slot with
   | none =>
     if !shouldDial then (none, [.fail .dialfail])
     else if !dialOk then (none, [.callDial, .fail .dialfail])
     else (some .dialing, [.callDial])
-  | some (.closed (some s)) => (some (.outInit s), [.pendIns s])
-  | some (.closed none) =>
-    match openRes with
-    | some s => (some (.outInit s), [.callOpen s, .pendIns s])
-    | none => (some (.closed none), [.fail .noconn])
+  | some (.closed pend) =>
+    match pend, pendHas with
+    | some s, true => (some (.outInit s), [.pendIns s])
+    | _, _ =>
+      match openRes with
+      | some s => (some (.outInit s), [.callOpen s, .pendIns s])
+      | none => (some (.closed none), [.fail .noconn])
   | some (.valPending c) => (some (.valPending c), [.fail .valpending])
   | some st => (some st, [])
 
@@ -102,7 +106,7 @@ def onOpenSubstream (slot : Slot) (shouldDial dialOk : Bool) (openRes : Option S
 def onConnEstablished (slot : Slot) (openRes : Option Sid) : Res :=
   match slot with
   | none => (some (.closed none), [])
-  | some .dialing => onOpenSubstream (some (.closed none)) true true openRes
+  | some .dialing => onOpenSubstream (some (.closed none)) true true false openRes
   | some (.valPending c) => (some (.valPending .opn), if c = .clo then [] else [.bug])
   | some st => (some .poisoned, st.dropped ++ [.bug])
 
@@ -190,7 +194,7 @@ def onValidationResult (slot : Slot) (accept : Bool) (openRes : Option Sid) : Re
   | none => (none, [])
   | some (.validating out (.validating pipe) dir) =>
     if !accept then
-      (some (.closed out.pendingOpen), [.closePipe pipe, .rmOut, .rmIn])
+      (some (.closed out.pendingOpen), [.rejected pipe, .closePipe pipe, .rmOut, .rmIn])
     else
       match out with
       | .closed =>
@@ -272,7 +276,7 @@ inductive Ev
   | outbound (sid : Sid) (pipe : Pipe) (pendOk : Bool)
   | inbound (pipe : Pipe)
   | openFailure (sid : Sid) (pendFound : Bool)
-  | cmdOpen (shouldDial dialOk : Bool) (openRes : Option Sid)
+  | cmdOpen (shouldDial dialOk pendHas : Bool) (openRes : Option Sid)
   | cmdClose
   | validation (accept : Bool) (openRes : Option Sid)
   | hsNegotiated (d : Dir) (hs : Hs) (pipe : Pipe) (auto : Bool) (task : Tid)
@@ -288,7 +292,7 @@ def handle (slot : Slot) : Ev → Res
   | .outbound s p ok => onOutboundSubstream slot s p ok
   | .inbound p => onInboundSubstream slot p
   | .openFailure s f => onSubstreamOpenFailure slot s f
-  | .cmdOpen sd dk r => onOpenSubstream slot sd dk r
+  | .cmdOpen sd dk ph r => onOpenSubstream slot sd dk ph r
   | .cmdClose => onCloseSubstream slot
   | .validation a r => onValidationResult slot a r
   | .hsNegotiated d hs p a t => onHsNegotiated slot d hs p a t
